@@ -72,6 +72,8 @@ def main():
         out["restored"] = ckpt.state_sig(sv, s.solver_state)
         out["restored_dtype"] = str(np.asarray(s.values).dtype)
         n = a["n"] if a.get("n") is not None else a["cap"] - int(s.iteration)
+        if a.get("final_iteration") is not None and int(s.iteration) >= a["final_iteration"]:
+            n = 0     # the checkpointed run had already finished: nothing to continue
         if n > 0:
             res = s.solve(n)
             ckpt.wait(s)
